@@ -205,12 +205,15 @@ def main():
     # replay for violations
     vio_lines = []
     seen = set()
+    searched = set()
     for g, r, o in violations:
         key = (g['name'], okey(o))
         if key in seen:
             continue
         seen.add(key)
-        path, found = replay_mod.make_replay(prop, g, r, o, meta)
+        # one bounded input search per group (each may take minutes); further violations of the group keep the verifier's trace only
+        path, found = replay_mod.make_replay(prop, g, r, o, meta, search=(g['name'] not in searched))
+        searched.add(g['name'])
         vio_lines.append('VIOLATION property=%s replay=%s%s' % (prop, path, '' if found else ' no-failing-input-found'))
 
     wall = time.time() - t0
